@@ -263,6 +263,21 @@ impl DodecahedronProjection {
         ))
     }
 
+    /// Read-only observation hook for external runtime monitors (feature `verif`, off by default):
+    /// which of the 30 face-triangle and 240 spherical-triangle memo slots of this instance are filled
+    #[cfg(feature = "verif")]
+    pub fn verif_filled_slots(&self) -> ([bool; 30], [bool; 240]) {
+        let mut face = [false; 30];
+        let mut spherical = [false; 240];
+        for (i, slot) in self.face_triangles.iter().enumerate().take(30) {
+            face[i] = slot.is_some();
+        }
+        for (i, slot) in self.spherical_triangles.iter().enumerate().take(240) {
+            spherical[i] = slot.is_some();
+        }
+        (face, spherical)
+    }
+
     /// Normalizes gamma to the range [-PI_OVER_5, PI_OVER_5]
     fn normalize_gamma(&self, gamma: Radians) -> Radians {
         let segment = gamma.get() / TWO_PI_OVER_5.get();
